@@ -550,29 +550,26 @@ def laws(ctx):
     rng = ctx.rng
     UTC = datetime.timezone.utc
     n = 0
-    for i in range(ctx.pick(400, 6000)):
-        dt = datetime.datetime(1970, 1, 1, tzinfo=UTC) + datetime.timedelta(seconds=rng.randrange(0, 4 * 10 ** 9))
-        text = email.utils.format_datetime(dt, usegmt=True)                     # trusted encoder (IMF-fixdate)
-        want = email.utils.parsedate_to_datetime(text)                           # trusted decoder
-        resps = (falcon.Response(), falcon.asgi.Response())
-        for kind, resp in zip(('wsgi', 'asgi'), resps):
-            resp.last_modified = dt.replace(tzinfo=None) if i % 2 else dt        # "assumed to be UTC"
-            written = resp.get_header('Last-Modified')
-            rq = base_req()
-            q = build(rq, kind, CASINGS[i % 4], [('Date', text), ('If-Modified-Since', written),
-                                                 ('If-Unmodified-Since', text)])
-            case = {'leg': 'L-date', 'kind': kind, 'text': text, 'written': written}
-            ctx.case(case, nontrivial=True, key=('Ld', kind, text))
-            n += 1
-            for a, w in (('date', want), ('if_modified_since', dt), ('if_unmodified_since', want)):
-                try:
-                    v1, v2 = getattr(q, a), getattr(q, a)
-                except Exception as ex:  # noqa
-                    ctx.violation('P:date', dict(case, accessor=a), '%s raised %r on a valid HTTP-date %r' % (a, ex, text))
-                    continue
-                if not (isinstance(v1, datetime.datetime) and v1.tzinfo is not None and v1 == w and v1 == v2):
-                    clause = 'P:roundtrip-date' if a == 'if_modified_since' else 'P:date'
-                    ctx.violation(clause, dict(case, accessor=a), '%s gave %r / %r, expected %r' % (a, v1, v2, w))
+    # HTTP-dates.  The laws are run under several PROCESS time zones (TZ + time.tzset()): a naive datetime
+    # handed to the response API is documented as UTC, and code that lets the local zone leak in (e.g.
+    # naive.astimezone()) is invisible on a box whose local zone is UTC.
+    import os
+    import time
+    zones = ('UTC', 'EST5', 'IST-5:30', 'NZST-12')            # POSIX specs: no zoneinfo database needed
+    old_tz = os.environ.get('TZ')
+    try:
+        for zi, zone in enumerate(zones):
+            os.environ['TZ'] = zone
+            time.tzset()
+            for i in range(ctx.pick(120, 1600)):
+                n += _date_case(ctx, rng, zone, i)
+    finally:
+        if old_tz is None:
+            os.environ.pop('TZ', None)
+        else:
+            os.environ['TZ'] = old_tz
+        time.tzset()
+    ctx.extra['date_law_process_timezones'] = list(zones)
     # entity-tags written by the response API read back the same
     tagc = 'abcXYZ019!#$%&\'()*+,-./:;<=>?@[]^_`{|}~'
     for i in range(ctx.pick(300, 4000)):
@@ -657,10 +654,68 @@ def laws(ctx):
     ctx.progress('leg L done: %d law cases' % n)
 
 
+def _date_case(ctx, rng, zone, i):
+    """one instant: trusted text -> request accessors; response API (naive = UTC, aware) -> request accessors."""
+    import falcon
+    import falcon.asgi
+    UTC = datetime.timezone.utc
+    dt = datetime.datetime(1970, 1, 1, tzinfo=UTC) + datetime.timedelta(seconds=rng.randrange(0, 4 * 10 ** 9))
+    naive = dt.replace(tzinfo=None)
+    text = email.utils.format_datetime(dt, usegmt=True)                     # trusted encoder (IMF-fixdate)
+    want = email.utils.parsedate_to_datetime(text)                           # trusted decoder
+    given = naive if i % 2 else dt                                            # "assumed to be UTC" / aware UTC
+    n = 0
+    for kind, resp in zip(('wsgi', 'asgi'), (falcon.Response(), falcon.asgi.Response())):
+        resp.last_modified = given
+        resp.expires = given
+        err = falcon.HTTPServiceUnavailable(retry_after=given)
+        written = {'last_modified': resp.get_header('Last-Modified'), 'expires': resp.get_header('Expires'),
+                   'retry_after': (err.headers or {}).get('Retry-After')}
+        # cookie expiry: naive = UTC, aware datetimes of any offset denote their instant
+        off = datetime.timezone(datetime.timedelta(minutes=rng.choice([0, -300, 330, 765])))
+        cgiven = naive if i % 2 else dt.astimezone(off)
+        setc = _set_cookie_via_app(kind, 'cexp', 'v', expires=cgiven)
+        sc = http.cookies.SimpleCookie()
+        sc.load(setc[0] if setc else '')
+        written['cookie_expires'] = sc['cexp']['expires'] if 'cexp' in sc else None
+        case = {'leg': 'L-date', 'kind': kind, 'tz': zone, 'instant': text, 'given': repr(given),
+                'cookie_given': repr(cgiven), 'written': written}
+        ctx.case(case, nontrivial=True, key=('Ld', kind, zone, text))
+        n += 1
+        # what the response API wrote must denote the instant (trusted decoder), ...
+        for wname, w in written.items():
+            try:
+                back = email.utils.parsedate_to_datetime(w)
+            except Exception as ex:  # noqa
+                back = ex
+            if back != dt:
+                ctx.violation('P:roundtrip-date', dict(case, source=wname),
+                              '%s written as %r for %r under TZ=%s: denotes %r, expected %r' % (wname, w, given, zone, back, dt))
+        # ... and must read back through the request API as the same value
+        q = build(base_req(), kind, CASINGS[i % 4], [('Date', text), ('If-Modified-Since', written['last_modified'] or ''),
+                                                   ('If-Unmodified-Since', written['expires'] or ''),
+                                                   ('X-Retry', written['retry_after'] or '')])
+        reads = [('date', lambda: q.date, want, 'P:date'),
+                 ('if_modified_since', lambda: q.if_modified_since, dt, 'P:roundtrip-date'),
+                 ('if_unmodified_since', lambda: q.if_unmodified_since, dt, 'P:roundtrip-date'),
+                 ('get_header_as_datetime(X-Retry)', lambda: q.get_header_as_datetime('X-Retry'), dt, 'P:roundtrip-date'),
+                 ('get_header_as_datetime(Date, obs_date)', lambda: q.get_header_as_datetime('Date', obs_date=True), want, 'P:date')]
+        for a, f, w, clause in reads:
+            try:
+                v1, v2 = f(), f()
+            except Exception as ex:  # noqa
+                ctx.violation(clause, dict(case, accessor=a), '%s raised %r under TZ=%s' % (a, ex, zone))
+                continue
+            if not (isinstance(v1, datetime.datetime) and v1.tzinfo is not None and v1 == w and v1 == v2):
+                ctx.violation(clause, dict(case, accessor=a), '%s gave %r / %r, expected %r (TZ=%s, given %r)'
+                              % (a, v1, v2, w, zone, given))
+    return n
+
+
 _APPS = {}
 
 
-def _set_cookie_via_app(kind, name, value):
+def _set_cookie_via_app(kind, name, value, expires=None):
     """Set-Cookie header(s) a real app emits for resp.set_cookie(name, value) (public surface only)."""
     import falcon
     import falcon.asgi
@@ -670,17 +725,17 @@ def _set_cookie_via_app(kind, name, value):
         if kind == 'wsgi':
             class Res:
                 def on_get(self, req, resp):
-                    resp.set_cookie(box['name'], box['value'])
+                    resp.set_cookie(box['name'], box['value'], expires=box['expires'])
             app = falcon.App()
         else:
             class Res:
                 async def on_get(self, req, resp):
-                    resp.set_cookie(box['name'], box['value'])
+                    resp.set_cookie(box['name'], box['value'], expires=box['expires'])
             app = falcon.asgi.App()
         app.add_route('/', Res())
         _APPS[kind] = (app, box)
     app, box = _APPS[kind]
-    box['name'], box['value'] = name, value
+    box['name'], box['value'], box['expires'] = name, value, expires
     res = (wsgi_call if kind == 'wsgi' else asgi_call)(app, Req())
     if res.exc is not None or res.status != 200:
         raise MachineryError('cookie app failed: %r %r' % (res.status, res.exc))
